@@ -229,7 +229,30 @@ type retainedResult struct {
 var retainedMu sync.Mutex
 var retained []retainedResult
 
+var poison = bytes.Repeat([]byte{0xAA}, 64)
+
+// useResult does with a result what callers do with results: it appends to the slices it was given
+// (a suffix to a row to build another key, one more cell to the cell list). Whatever spare capacity
+// those slices have is memory the caller may legitimately write to - so it must not be memory that
+// another result (or another field of this one) lives in.
+func useResult(r *hrpc.Result) {
+	if r == nil {
+		return
+	}
+	for _, c := range r.Cells {
+		for _, f := range [][]byte{c.Row, c.Family, c.Qualifier, c.Value} {
+			if n := cap(f) - len(f); n > 0 {
+				_ = append(f, poison[:min(n, len(poison))]...)
+			}
+		}
+	}
+	if cap(r.Cells) > len(r.Cells) {
+		_ = append(r.Cells, &hrpc.Cell{Row: []byte("appended by the caller")})
+	}
+}
+
 func retain(r *hrpc.Result, key []byte, marker string) {
+	useResult(r)
 	retainedMu.Lock()
 	retained = append(retained, retainedResult{r, key, marker})
 	retainedMu.Unlock()
